@@ -54,7 +54,17 @@ def named_mu(fn, name):
     return key, te.mu_init.get(key), te.mu_update.get(key, [])
 
 
+_PROG = [None]
+
+
 def canon(fn, t, roles):
+    if _PROG[0] is not None:
+        # a private helper of the slot arithmetic (`home_slot(hash, cap)`) is read through
+        try:
+            from . import canon as _c
+            t = _c.inline_local(_PROG[0], t, lambda h: "{closure" not in h.npath and h.kind != "Closure")
+        except Exception:
+            pass
     s = show(strip(t))
     for (h, l), nm in roles.items():
         s = s.replace("μ%d_%d" % (h, l), nm)
@@ -95,6 +105,7 @@ def loop_facts(fn, hash_t, cap_t):
 
 def run(prog):
     out = []
+    _PROG[0] = prog
     ins = prog.find1(name="get_or_insert_by_hash", self_adt=T, unit="rsdd-lib")
     get = prog.find1(name="get_by_hash", self_adt=T, unit="rsdd-lib")
     fi = loop_facts(ins, "arg2", "arg1.cap")
@@ -224,7 +235,9 @@ def run(prog):
     errs = []
     step = sorted(canon(pr, u, roles).replace("arg2", "CAP") for u in upos)
     if step != ["( ( POS Add 1 ) Rem CAP )"]:
-        errs.append("step is %s" % step)
+        masked_step = [re.sub(r"BitAnd (CAP|arg\d+)", "Rem CAP", x) for x in step] == ["( ( POS Add 1 ) Rem CAP )"]
+        errs.append("%sstep is %s%s" % ("?" if masked_step else "", step, " (a masked form: equal to +1 mod cap only while the "
+                                                                            "parameter is cap - 1 and cap a power of two)" if masked_step else ""))
     tests = [canon(pr, strip(c), roles) for d, (c, vm) in te.switch_term.items() if strip(c)[0] == "bin" and "psl" in show(c)]
     if len(tests) != 1 or not re.match(r"^\( .*psl Lt S\.psl \)$", tests[0]):
         errs.append("displacement test is %s, expected `resident.psl < searcher.psl`" % tests)
@@ -244,11 +257,45 @@ def run(prog):
             if cs.callee.name == "propagate":
                 homes.append(strip(cs.args[-1]))
     errs = []
+
+    def cap_like(t):
+        # the new capacity itself: self.cap, the value stored into it (next_power_of_two(..), a doubling), a captured copy —
+        # not something that merely *mentions* it, like the length of the table that was swapped out
+        t = strip(t)
+        if t[0] == "cast" and len(t) > 2:
+            t = strip(t[2])
+        if t[0] == "upvar" or t[0] == "param":
+            return True
+        if t[0] == "field" and t[2] == "cap":
+            return True
+        if t[0] == "field" and t[2] == "0" and isinstance(t[1], tuple) and t[1] and t[1][0] == "bin":
+            return "cap" in show(t[1])
+        if t[0] == "bin":
+            return "cap" in show(t)
+        if mir.is_call(t) and t[1].name in ("next_power_of_two", "checked_next_power_of_two", "expect", "unwrap", "checked_mul", "max"):
+            return "cap" in show(t)
+        if mir.is_call(t, "len"):
+            inner = strip(t[2][0])
+            return not any(mir.is_call(x, "replace") or mir.is_call(x, "take") for x in [inner] + list(mir.subterms(inner)))
+        return False
     for h in homes:
         ok = h[0] == "bin" and h[1] == "Rem" and ("hash" in show(h[2]) or any(x == ("param", 2) for x in mir.subterms(h[2]))) \
-            and ("cap" in show(h[3]) or strip(h[3])[0] == "upvar"
-                                                                               or "next_power_of_two" in show(h[3]))
-        if not ok:
+            and cap_like(h[3])
+        if not ok and _PROG[0] is not None:
+            try:
+                from . import canon as _c
+                h2 = strip(_c.inline_local(_PROG[0], h, lambda g_: "{closure" not in g_.npath and g_.kind != "Closure"))
+                if h2[0] == "field" and h2[2] == "0":
+                    h2 = strip(h2[1])
+                if h2 != h and h2[0] == "bin" and h2[1] == "Rem" and ("hash" in show(h2[2])) and cap_like(h2[3]):
+                    h, ok = h2, True
+            except Exception:
+                pass
+        masked_home = (not ok) and h[0] == "bin" and h[1] == "BitAnd" and "hash" in show(h[2]) and \
+            strip(h[3])[0] == "field" and strip(strip(h[3])[1]) in (("param", 1), ("deref", ("param", 1)))
+        if masked_home:
+            errs.append("?grow re-homes at %s: a masked form of hash %% cap (DI decides that the mask follows cap)" % show(h)[:60])
+        elif not ok:
             errs.append("grow re-homes at %s, not at hash %% cap" % show(h))
         elif not any(x[0] == "field" and x[2] == "hash" for x in mir.subterms(h[2])) and \
                 any(x[0] == "call" and x[1].name in ("finish", "hash", "hash_one", "finish_u64") for x in mir.subterms(h[2])):
